@@ -330,8 +330,8 @@ func valueHistories(r *core.Run) {
 
 func valueHistoriesGenerated(r *core.Run, ops []vop, nAlpha, obs, gapc int, groups [][]int, prog string) {
 	ls := layouts(core.Pick(r, 2, 3))
-	const parts = 4 // a unit = one layout x one quarter of the first operations
-	var cases, evals, withGap, units int64
+	const parts = 1 // a unit = one layout (x one part of the first operations when parts > 1)
+	var cases, evals, withGap, units, nObs, nPairs int64
 	distinct := map[uint64]bool{}
 	for li, l := range ls {
 		files := map[string][]byte{"in.bin": l.Data}
@@ -382,6 +382,7 @@ func valueHistoriesGenerated(r *core.Run, ops []vop, nAlpha, obs, gapc int, grou
 			for a := 0; a < nAlpha; a++ {
 				if a%parts == part {
 					cs = append(cs, mk([]int{a, obs}))
+					nObs++
 				}
 			}
 			for gi, g := range groups {
@@ -391,6 +392,7 @@ func valueHistoriesGenerated(r *core.Run, ops []vop, nAlpha, obs, gapc int, grou
 				for _, a := range g {
 					for _, b := range g {
 						cs = append(cs, mk([]int{a, b}))
+						nPairs++
 					}
 				}
 			}
@@ -426,7 +428,8 @@ func valueHistoriesGenerated(r *core.Run, ops []vop, nAlpha, obs, gapc int, grou
 	r.AddTraces(cases)
 	r.Count("valhist_generated_units", units)
 	r.Count("valhist_generated_values_with_a_gap_not_last", withGap)
-	r.Count("valhist_generated_ordered_pairs", cases)
+	r.Count("valhist_generated_histories_operation_then_observation", nObs)
+	r.Count("valhist_generated_histories_ordered_pairs_per_option", nPairs)
 	r.Count("valhist_generated_distinct_lone_outputs", int64(len(distinct)))
 	if r.ShardIdx == 0 {
 		r.Count("valhist_operations", int64(nAlpha))
